@@ -1,19 +1,54 @@
-(* C19: the set container is an ordered map for every history.  ONLY statements closed by `exact`, each followed by Print Assumptions. *)
-From Coq Require Import List ZArith NArith.
-Require Import Splay SplayRoot SetOps SetRefine.
+(* C19: the set container is an ordered map for every history.  ONLY statements closed by `exact`, each followed by Print Assumptions.
+   SetOps.run is the executable model compared with src/set.c on every run (results, iteration order, disposal log, count);
+   SetGen is the same algorithm over an arbitrary comparator that is a total preorder. *)
+From Coq Require Import List ZArith NArith Permutation Strings.Byte.
+Require Import Splay SplayRoot SetOps SetGen Comparators SetInt.
 
+(* for EVERY operation sequence the model used in the correspondence answers exactly like the sorted association list:
+   results of find / lower bound / remove, iteration order (chain), count and disposal log *)
+Theorem set_is_a_sorted_map : forall ops, map obsI (SetOps.run ops) = SetGen.spec_run Z cmp_int (map gop ops).
+Proof. exact run_refines_sorted_map_SetOps. Qed.
+Print Assumptions set_is_a_sorted_map.
+
+(* an element's cleanup runs exactly once: inserted = disposed ++ still in the set ++ released without disposal (as multisets),
+   and no tag occurs twice in that ledger, so nothing is disposed twice and nothing disposed is still in the set *)
+Theorem cleanup_exactly_once : forall ops,
+  let acct := disposalsI (SetOps.run ops) ++ SetOps.chain (fst (fst (SetOps.run_from SetOps.init ops))) ++ released_fromI SetOps.init ops in
+  Permutation (inserted_fromI 0%N ops) acct /\ NoDup (map snd acct).
+Proof. exact dispose_exactly_once_SetOps. Qed.
+Print Assumptions cleanup_exactly_once.
+
+(* the same two facts for every comparator that is a total preorder, any key type *)
+Theorem generic_set_is_a_sorted_map : forall (K : Type) (cmp : K -> K -> Z), total_preorder cmp ->
+  forall ops, map (SetGen.obs K) (SetGen.run K cmp ops) = SetGen.spec_run K cmp ops.
+Proof. exact tp_run_refines_sorted_map. Qed.
+Print Assumptions generic_set_is_a_sorted_map.
+
+Theorem generic_invariant : forall (K : Type) (cmp : K -> K -> Z), total_preorder cmp ->
+  forall ops, SetGen.Inv K cmp (fst (fst (SetGen.run_from K cmp (SetGen.init K) ops))).
+Proof. exact tp_run_inv. Qed.
+Print Assumptions generic_invariant.
+
+(* the stock comparators are total preorders over their whole key domain *)
+Theorem int_comparator_total : total_preorder cmp_int.          (* the C expression (a > b) - (a < b) on the pointed-to ints, every pair of ints *)
+Proof. exact cmp_int_total_preorder. Qed.
+Print Assumptions int_comparator_total.
+
+Theorem string_comparator_total : total_preorder cmp_ci.   (* strcasecmp *)
+Proof. exact cmp_ci_total_preorder. Qed.
+Print Assumptions string_comparator_total.
+
+Theorem pointer_comparator_total : total_preorder cmp_ptr.
+Proof. exact cmp_ptr_total_preorder. Qed.
+Print Assumptions pointer_comparator_total.
+
+(* the comparator the pinned tree shipped with (wrap32 (a - b)) is NOT one: this is defect D7, repaired by commit 1b15131 *)
+Theorem subtraction_comparator_refuted : ~ total_preorder old_cmp_int.
+Proof. exact old_cmp_int_not_total_preorder. Qed.
+Print Assumptions subtraction_comparator_refuted.
+
+(* splaying never changes the in-order sequence, for any comparator whatsoever *)
 Theorem splay_preserves_inorder : forall (K : Type) (cmp : K -> K -> Z) (d : K) (t : Splay.tree K),
   Splay.inorder K (fst (Splay.splay K cmp d t)) = Splay.inorder K t.
 Proof. exact splay_inorder. Qed.
 Print Assumptions splay_preserves_inorder.
-
-Theorem find_refines_sorted_map : forall s d, Inv s ->
-  Inv (fst (find s d)) /\ chain (fst (find s d)) = chain s /\ snd (find s d) = assoc (fst d) (chain s).
-Proof. exact find_spec. Qed.
-Print Assumptions find_refines_sorted_map.
-
-Theorem insert_refines_sorted_map : forall s e, Inv s ->
-  Inv (fst (insert s e)) /\ chain (fst (insert s e)) = sins e (chain s) /\
-  snd (insert s e) = match assoc (fst e) (chain s) with Some old => cons old nil | None => nil end.
-Proof. exact insert_spec. Qed.
-Print Assumptions insert_refines_sorted_map.
